@@ -69,6 +69,8 @@ class C17(Prop):
                 if len(fs) == 4 and (len(g) > 2 or sum(fs) > 8):
                     continue
                 for col in (True, False):
+                    if not col and sum(fs) > 7:
+                        continue   # path explosion (8 independently placed factors): outside the bound
                     out.append({'harness': 'greedy', 'factors': fs, 'groups': g, 'colocate': col})
         return out
 
